@@ -240,6 +240,87 @@ def replace_table(data, tag, new):
     return bytes(d)
 
 
+def relayout(data, last_tag, pad_final=False):
+    """the same font with its tables stored in directory order except that [last_tag] comes physically last; without [pad_final]
+    the file ends on that table's last byte (legal: only the tables in front of another one need padding)"""
+    n = struct.unpack('>H', data[4:6])[0]
+    ents = [(data[12 + 16 * i:16 + 16 * i], data[16 + 16 * i:20 + 16 * i]) + struct.unpack('>II', data[20 + 16 * i:28 + 16 * i]) for i in range(n)]
+    order = [e for e in ents if e[0] != last_tag] + [e for e in ents if e[0] == last_tag]
+    out = bytearray(data[:12 + 16 * n])
+    where = {}
+    for k, (tag, cs, off, ln) in enumerate(order):
+        while len(out) % 4:
+            out.append(0)
+        where[tag] = len(out)
+        out += data[off:off + ln]
+    if pad_final:
+        while len(out) % 4:
+            out.append(0)
+    for i, (tag, cs, off, ln) in enumerate(ents):
+        out[12 + 16 * i:28 + 16 * i] = tag + cs + struct.pack('>II', where[tag], ln)
+    return bytes(out)
+
+
+def feat_records(data):
+    """(offset of the record in the file, id, flags) of every feature of the font's Feat table"""
+    tb = font_tables(data)
+    if b'Feat' not in tb: return []
+    o, l = tb[b'Feat']
+    v2 = struct.unpack('>H', data[o:o + 2])[0] >= 2
+    n = struct.unpack('>H', data[o + 4:o + 6])[0]
+    rec = 16 if v2 else 12
+    out = []
+    for k in range(n):
+        r = o + 12 + k * rec
+        if r + rec > o + l: break
+        fid = struct.unpack('>I', data[r:r + 4])[0] if v2 else struct.unpack('>H', data[r:r + 2])[0]
+        out.append((r, fid, struct.unpack('>H', data[r + rec - 4:r + rec - 2])[0]))
+    return out
+
+
+def sill_langs(data):
+    """the language codes of the font's Sill table"""
+    tb = font_tables(data)
+    if b'Sill' not in tb: return []
+    o, l = tb[b'Sill']
+    if l < 12: return []
+    n = struct.unpack('>H', data[o + 4:o + 6])[0]
+    return [struct.unpack('>I', data[o + 12 + 8 * k:o + 16 + 8 * k])[0] for k in range(n) if o + 20 + 8 * k <= o + l]
+
+
+def silf_pseudos(data):
+    """[(file offset of the entry, unicode, glyph)] of the pseudo-glyph map of the font's first Silf subtable (walks the header as the
+    format document lays it out: v2 field by field, v3+ through pseudosOffset)"""
+    tb = font_tables(data)
+    if b'Silf' not in tb: return []
+    o, l = tb[b'Silf']
+    t = data[o:o + l]
+    ver = struct.unpack('>I', t[:4])[0]
+    if ver >= 0xFFFF0000 or ver < 0x00020000: return []          # compressed / old: not walked here
+    p = 8 if ver >= 0x00030000 else 4
+    nsub = struct.unpack('>H', t[p:p + 2])[0]
+    if not nsub: return []
+    sub = struct.unpack('>I', t[p + 4:p + 8])[0]
+    q = sub
+    if ver >= 0x00030000:
+        q = sub + struct.unpack('>H', t[sub + 6:sub + 8])[0]
+    else:
+        h = sub
+        npass, nj = t[h + 6], t[h + 19]
+        h += 20 + 8 * nj
+        ncrit = t[h + 9]
+        h += 10 + 2 * ncrit + 1
+        nscript = t[h]; h += 1 + 4 * nscript
+        h += 2 + 4 * (npass + 1)
+        q = h
+    n = struct.unpack('>H', t[q:q + 2])[0]
+    r = [(o + q + 8 + 6 * k,) + struct.unpack('>IH', t[q + 8 + 6 * k:q + 14 + 6 * k]) for k in range(n)]
+    us = [u for _, u, _ in r]
+    if any(u >= 0x110000 for u in us) or us != sorted(set(us)):
+        return None                                              # not a pseudo map: a header layout this walk does not know
+    return r
+
+
 def font_tables(data):
     n = struct.unpack('>H', data[4:6])[0]
     return {data[12 + 16 * i:16 + 16 * i]: struct.unpack('>II', data[20 + 16 * i:28 + 16 * i]) for i in range(n)}
